@@ -61,14 +61,22 @@ print(json.dumps(_res))
 '''
 
 
+# interpreter configurations (the property quantifies over configurations): assert statements and docstrings stripped, development mode,
+# warnings as errors, no bytecode files
+FLAGS = [[], ['-O'], ['-OO'], ['-X', 'dev'], ['-W', 'error'], ['-B']]
+
+
 def _run_child(args):
-    stmts, logged, repo = args
+    stmts, logged, repo = args[:3]
+    flags = args[3] if len(args) > 3 else []
     body = '\n'.join('    ' + s for s in stmts)
     prog = (imports.LOGGER if logged else '') + CHILD % (body, MARKUP, SELS, SELS, NSDOC, NSMAP, NSSELS, NSMAP, NSSELS, "_res['events'] = _ev" if logged else '')
     env = dict(os.environ)
     env['PYTHONPATH'] = repo
     env.pop('PYTHONWARNINGS', None)
-    p = subprocess.run(['/venv/bin/python', '-c', prog], capture_output=True, text=True, env=env, timeout=120)
+    if '-W' in flags:
+        prog = prog.replace("warnings.simplefilter('always')", 'pass')        # keep the filter the command line installed
+    p = subprocess.run(['/venv/bin/python'] + flags + ['-c', prog], capture_output=True, text=True, env=env, timeout=120)
     try:
         res = json.loads(p.stdout.strip().splitlines()[-1]) if p.stdout.strip() else {}
     except Exception:
@@ -159,6 +167,34 @@ def main(tier):
             chk.coverage['import_orders_matching_model'] = chk.coverage.get('import_orders_matching_model', 0) + 1
         if len(chk.coverage['samples']) < 3:
             chk.sample({'script': name, 'model_err': model_err, 'interpreter_exc': c.get('exc'), 'module_order': ev_real[:8]})
+    # the same entry statements under other interpreter configurations: every single statement under every configuration, every pair
+    # under one (rotating) configuration; oracle: succeeds silently, same select results
+    cjobs = []
+    for n, sc in enumerate(scripts):
+        for fl in (FLAGS[1:] if len(sc) == 1 else [FLAGS[1 + n % (len(FLAGS) - 1)]] if len(sc) == 2 else []):
+            cjobs.append((sc, False, common.REPO, fl))
+    with mp.get_context('fork').Pool(16) as pool:
+        couts = pool.map(_run_child, cjobs)
+    for (sc, _, _, fl), c in zip(cjobs, couts):
+        name = '%s [python %s]' % ('; '.join(sc), ' '.join(fl))
+        chk.count(1, traces=1)
+        chk.nontrivial(name)
+        bad = []
+        if c.get('rc') != 0:
+            bad.append('interpreter exited with status %s: %s' % (c.get('rc'), c.get('raw_stderr', '')[-300:]))
+        if c.get('exc'):
+            bad.append('raised %s' % c['exc'])
+        if c.get('out') or c.get('raw_stdout_extra'):
+            bad.append('printed to stdout: %r' % (c.get('out') or c.get('raw_stdout_extra'))[:200])
+        if c.get('err') or (c.get('rc') == 0 and c.get('raw_stderr')):
+            bad.append('wrote to stderr / warned: %r' % (c.get('err') or c.get('raw_stderr'))[:300])
+        if c.get('after'):
+            bad.append('select after import failed: %s' % c['after'])
+        if 'r1' in c and (c.get('r1') != c.get('r2') or (ref is not None and c['r1'] != ref)):
+            bad.append('select results differ under this configuration')
+        for b in bad:
+            chk.violation('%s|%s' % (name, b[:80]), 'fresh interpreter `%s`: %s' % (name, b), {'cfg': 'interpreter-configurations', 'group': 'cfg ' + b[:50], 'script': sc, 'flags': fl})
+    chk.notes['interpreter_configurations'] = {'flags': [' '.join(f) for f in FLAGS], 'runs': len(cjobs)}
     # T-ImportSafe on the model: a predicted failure that the interpreter does not confirm is drift, a confirmed one was reported above
     chk.notes['model_predicted_failures'] = sum(1 for p in pred.values() if p.get('err') != 'none' or p.get('soft', 'none') != 'none')
     return chk.finish()
